@@ -31,8 +31,8 @@ THEOREMS = [
     dict(name="Snow.C14.rep_is_seeded_run", clause="any object state, mode, pool batching, global-generator state: results = one row per repetition in seed order, row i = the single run with seed i", strength="full"),
     dict(name="Snow.C14.rep_after_resize", clause="after S.Nrep = n on an object in any state (e.g. after a larger study) a run gives exactly the n seeded rows", strength="full"),
     dict(name="Snow.C14.single_eq_rep0", clause="a single run (Nrep = 1) equals repetition 0", strength="full"),
-    dict(name="Snow.C14.repeat_same", clause="any sequence of earlier runs, then a run: same table (Nrep > 1)", strength="full"),
-    dict(name="Snow.C14.repeat_same_single", clause="any sequence of earlier runs, then a run: same row (Nrep = 1)", strength="full"),
+    dict(name="Snow.C14.repeat_same", clause="any sequence of earlier runs, then a run: same table (Nrep > 1) - proved for the table bookkeeping (`_statsMultiple` is rebuilt, keys, status); the row VALUES are history-independent by definition of `runXD` (code-level: correspondence)", strength="full"),
+    dict(name="Snow.C14.repeat_same_single", clause="model: any sequence of earlier runs, then a run: same row (Nrep = 1) - holds because one simulation `runXD` does not read the incoming object or generator state BY DEFINITION; that `_run_xD` of the CODE depends on configuration and seed only rests on the correspondence (used-object and perturbed-generator reruns bit-identical, generator calls observed)", strength="by-construction"),
     dict(name="Snow.C14.modes_equal", clause="sequential = async for every pool batching and worker count", strength="full"),
     dict(name="Snow.C14.poolChunks_valid", clause="the batches multiprocessing.Pool makes cover the tasks in order", strength="full"),
     dict(name="Snow.C14.old_sequential_raises", clause="pre-repair code: sequential Nrep>1 stores nothing, results raises ValueError", strength="refutation-of-old-code"),
